@@ -11,6 +11,18 @@ values to these texts and back; the harness applies the same mapping to what it 
 namespace TxV.Config
 open TxV.Split (Text)
 
+/-- declared types (config/names), by the way `TorConfig` treats them: `line` LineList, `port` the
+    FooPort/FooPortLines/__FooPort triple, `comma` CommaList/RouterList/TimeIntervalCommaList, `bool`
+    Boolean, `auto` Boolean+Auto, `int` Integer/SignedInteger/Port/TimeInterval/DataSize, `float`
+    Float, `str` String/Filename and the types without a parser of their own -/
+inductive Ty
+  | line | port | comma | bool | auto | int | float | str
+  deriving DecidableEq, Repr
+
+def Ty.isList : Ty → Bool
+  | .line | .port | .comma => true
+  | _ => false
+
 /-- a value held in `config` / `unsaved` -/
 inductive CVal
   | scalar (ver : Nat) (t : Text)      -- `ver`: which assignment produced this object (`is`-identity)
@@ -42,7 +54,7 @@ structure St where
   config : List (Nat × CVal) := []
   unsaved : List (Nat × CVal) := []                   -- an OrderedDict
   heap : List (Nat × List Text) := []                 -- list objects
-  isList : List Nat := []                             -- names in `list_parsers` / of a list type
+  types : List (Nat × Ty) := []                       -- `parsers` / `list_parsers`: the declared type of each option
   defaults : List (Nat × List Text) := []             -- `config/defaults` (one line ↦ one-element list)
   inflight : List (List Sent) := []                   -- SETCONFs awaiting their answer, oldest first
   next : Nat := 0                                     -- fresh ids / versions
@@ -65,6 +77,80 @@ def aset {ν : Type} (l : List (Nat × ν)) (k : Nat) (v : ν) : List (Nat × ν
 def adel {ν : Type} (l : List (Nat × ν)) (k : Nat) : List (Nat × ν) := l.filter (·.1 ≠ k)
 
 def items (s : St) (id : Nat) : List Text := (aget s.heap id).getD []
+
+def tyOf (s : St) (name : Nat) : Ty := (aget s.types name).getD .str
+
+/-! ### per-type parsing (`TorConfigType.parse`) -/
+
+/-- what `str.strip()` removes (ASCII) -/
+def pySpace (c : Char) : Bool :=
+  c = ' ' || c = '\t' || c = '\n' || c = '\r' || c = '\x0b' || c = '\x0c' || c = '\x1c' || c = '\x1d' || c = '\x1e' || c = '\x1f'
+
+def strip (t : Text) : Text := ((t.dropWhile pySpace).reverse.dropWhile pySpace).reverse
+
+/-- `CommaList.parse` -/
+def parseComma (t : Text) : List Text := (TxV.Split.splitOn ',' t).map strip
+
+def digitVal (c : Char) : Option Nat := if c.isDigit then some (c.toNat - '0'.toNat) else none
+
+def natOf (ds : Text) : Option Nat :=
+  if ds.isEmpty then none else ds.foldl (fun acc c => do pure ((← acc) * 10 + (← digitVal c))) (some 0)
+
+/-- `int(s)` for the decimal spellings Tor uses: optional sign, digits, surrounding blanks -/
+def intOf (t : Text) : Option Int :=
+  match strip t with
+  | '-' :: ds => (natOf ds).map fun n => -(n : Int)
+  | '+' :: ds => (natOf ds).map fun n => (n : Int)
+  | ds => (natOf ds).map fun n => (n : Int)
+
+def showInt (i : Int) : Text := (toString i).toList
+
+def dropTrailingZeros (ds : Text) : Text × Nat :=
+  let r := ds.reverse
+  let z := r.takeWhile (· = '0')
+  ((r.dropWhile (· = '0')).reverse, z.length)
+
+/-- a decimal spelling `[-]ddd[.ddd]` as sign, significant digits and exponent: the value of `float(s)`
+    wherever the spelling is short enough to be exact -/
+def floatOf (t : Text) : Option Text :=
+  let body := strip t
+  let neg := body.head? = some '-'
+  let body := if body.head? = some '-' || body.head? = some '+' then body.drop 1 else body
+  let ip := body.takeWhile (· ≠ '.')
+  let fp := (body.dropWhile (· ≠ '.')).drop 1
+  if (ip ++ fp).isEmpty || !(ip ++ fp).all Char.isDigit then none
+  else
+    let ds := (ip ++ fp).dropWhile (· = '0')
+    let (sig, z) := dropTrailingZeros ds
+    if sig.isEmpty then some ['0', 'e', '0']
+    else some ((if neg then ['-'] else []) ++ sig ++ ['e'] ++ showInt ((z : Int) - (fp.length : Int)))
+
+/-- is the text a well-formed value of the type (where `parse` does not raise)? -/
+def wellTyped (ty : Ty) (t : Text) : Bool :=
+  match ty with
+  | .bool | .int => (intOf t).isSome
+  | .auto => t = ['a', 'u', 't', 'o'] || (intOf t).isSome
+  | .float => (floatOf t).isSome
+  | _ => true
+
+/-- the typed view of a scalar, in the canonical spelling the harness gives Python values:
+    bool ↦ 0/1, Boolean+Auto ↦ -1/0/1, integers in decimal, floats as digits`e`exponent.
+    (ill-typed texts make `parse` raise; they are left as they are here and excluded by `wellTyped`) -/
+def canon (ty : Ty) (t : Text) : Text :=
+  match ty with
+  | .bool => match intOf t with
+    | some i => if i = 0 then ['0'] else ['1']
+    | none => t
+  | .auto =>
+    if t = ['a', 'u', 't', 'o'] then ['-', '1']
+    else match intOf t with
+      | some i => if i < 0 then ['-', '1'] else if i = 0 then ['0'] else ['1']
+      | none => t
+  | .int => match intOf t with
+    | some i => showInt i
+    | none => t
+  | .float => (floatOf t).getD t
+  | _ => t
 
 def genOf (s : St) (name : Nat) : Nat := (aget s.gen name).getD 0
 
@@ -139,36 +225,62 @@ def ack (s : St) (ok : Bool) : St × List Out :=
 /-- `__getattr__`: the running configuration (not the pending one); DEFAULT ↦ the default -/
 def read (s : St) (name : Nat) : Option (List Text ⊕ Text) :=
   match aget s.config name with
-  | some (.scalar _ t) => some (.inr t)
+  | some (.scalar _ t) => some (.inr (canon (tyOf s name) t))
   | some (.list id) => some (.inl (items s id))
   | some .dflt =>
-    match aget s.defaults name with
-    | some d => some (.inl d)             -- (a scalar default is a one-element list here; the harness joins it)
-    | none => some (.inr ['D', 'E', 'F', 'A', 'U', 'L', 'T'])
+    match aget s.defaults name with       -- `_defaults.get(rn, DEFAULT_VALUE)`: a string, or a list when the key is repeated
+    | some [d] => some (.inr d)
+    | some (d :: e :: ds) => some (.inl (d :: e :: ds))
+    | _ => some (.inr ['D', 'E', 'F', 'A', 'U', 'L', 'T'])
   | none => none
 
-/-- `_conf_changed`: values grouped per key; list options become fresh tracked lists -/
-def confChanged (s : St) (changes : List (Nat × List Text)) : St :=
-  changes.foldl (fun s (n, vals) =>
-    if n ∈ s.isList then
-      let vals := if vals.isEmpty then (aget s.defaults n).getD [] else vals
-      { s with config := aset s.config n (.list s.next), heap := aset s.heap s.next vals, next := s.next + 1 }
-    else
-      match vals.getLast? with
-      | some v => { s with config := aset s.config n (.scalar s.next v), next := s.next + 1 }
-      | none =>
-        match aget s.defaults n with
-        | some (d :: _) => { s with config := aset s.config n (.scalar s.next d), next := s.next + 1 }
-        | _ => { s with config := aset s.config n .dflt }) s
+/-- the values of a list-valued option as `_conf_changed` parses them (`vals = []`: unset) -/
+def listValues (s : St) (n : Nat) (vals : List Text) : List Text :=
+  let vals := if vals.isEmpty then (aget s.defaults n).getD [] else vals
+  match tyOf s n with
+  | .comma => vals.flatMap parseComma           -- Tor reports a comma list as one value
+  | .line => vals.map strip                      -- `LineList.parse`
+  | _ => vals                                    -- port lists: `String.parse`
 
-/-- the value an option gets at bootstrap from Tor's GETCONF answer (`vals = []`: unset) -/
-def bootOption (s : St) (n : Nat) (vals : List Text) : St :=
-  if n ∈ s.isList then
-    let vals := if vals.isEmpty then (aget s.defaults n).getD [] else vals
-    { s with config := aset s.config n (.list s.next), heap := aset s.heap s.next vals, next := s.next + 1 }
+/-- one option of a CONF_CHANGED event -/
+def ccStep (s : St) (c : Nat × List Text) : St :=
+  if (tyOf s c.1).isList then
+    { s with config := aset s.config c.1 (.list s.next), heap := aset s.heap s.next (listValues s c.1 c.2), next := s.next + 1 }
+  else
+    match c.2.getLast? with
+    | some v => { s with config := aset s.config c.1 (.scalar s.next v), next := s.next + 1 }
+    | none =>
+      match aget s.defaults c.1 with
+      | some (d :: _) => { s with config := aset s.config c.1 (.scalar s.next d), next := s.next + 1 }
+      | _ => { s with config := aset s.config c.1 .dflt }
+
+/-- `_conf_changed`: values grouped per key; list options become fresh tracked lists -/
+def confChanged (s : St) (changes : List (Nat × List Text)) : St := changes.foldl ccStep s
+
+/-- the list an option holds after bootstrap (`vals = []`: unset; `under`: the value of `__FooPort`) -/
+def bootList (s : St) (n : Nat) (vals : List Text) (under : Option Text) : List Text :=
+  match tyOf s n with
+  | .comma => if vals.isEmpty then ((aget s.defaults n).getD []).flatMap parseComma else vals.flatMap parseComma
+  | .line => if vals.isEmpty then (aget s.defaults n).getD [] else vals.map strip
+  | _ =>
+    if vals.isEmpty || vals = [['a', 'u', 't', 'o']] then
+      match aget s.defaults n with
+      | some d => d
+      | none => under.toList
+    else vals
+
+/-- the value an option gets at bootstrap from Tor's GETCONF answer -/
+def bootOption (s : St) (n : Nat) (vals : List Text) (under : Option Text := none) : St :=
+  if (tyOf s n).isList then
+    { s with config := aset s.config n (.list s.next), heap := aset s.heap s.next (bootList s n vals under), next := s.next + 1 }
   else
     match vals.getLast? with
-    | some v => { s with config := aset s.config n (.scalar s.next v), next := s.next + 1 }
+    | some v =>
+      if v.isEmpty then
+        match aget s.defaults n with
+        | some (d :: _) => { s with config := aset s.config n (.scalar s.next d), next := s.next + 1 }
+        | _ => { s with config := aset s.config n .dflt }
+      else { s with config := aset s.config n (.scalar s.next v), next := s.next + 1 }
     | none =>
       match aget s.defaults n with
       | some (d :: _) => { s with config := aset s.config n (.scalar s.next d), next := s.next + 1 }
